@@ -28,6 +28,7 @@ def run(ctx, rep):
     n = totality.report(ctx, rep, E, ec, occ, ALLOWED, "C09")
     nl = totality.check_termination(ctx, rep, E, ec)
     nr = totality.check_recursion(ctx, rep, E)
+    totality.check_definite_assignment(ctx, rep, E)
     ne = totality.check_establishing(ctx, rep, E)
     # EST-KEKULIZED: the printers assert that no atom is aromatic any more: kekulize() reports success only with the
     # delocalised subgraph emptied (and the writer / encoder test is_kekulized / the result)   (C05/K1, K4 shared)
@@ -36,9 +37,9 @@ def run(ctx, rep):
     check_completion(ctx, rep, K_, IK_, "EST")
     if ne < 1:
         raise AnalysisError("no add_ring_bond call found in the parser region (anchor of RINGBOND_DISTINCT lost)")
-    if n < 150:
-        rep.floor_failures.append("only %d raise sites enumerated in the encoder region (expected >= 150)" % n)
-    if nl < 9:
-        rep.floor_failures.append("only %d while-loops found in the encoder region (expected >= 9)" % nl)
+    if n < 100:
+        rep.floor_failures.append("only %d raise sites enumerated in the encoder region (expected >= 100; 200 on the pinned tree)" % n)
+    if nl < 5:
+        rep.floor_failures.append("only %d while-loops found in the encoder region (expected >= 5; 9 on the pinned tree)" % nl)
     rep.analysed.update({"region_functions": len(E.quals), "raise_sites": n, "while_loops": nl, "cycles": nr,
                          "engine_functions": sorted(ec.ran), "engine_errors": ec.errors})
